@@ -115,6 +115,8 @@ var c07Queries = []string{
 	// inline fragments WITHOUT a type condition, under object / interface / union / member-less parents
 	"{ user(id: \"1\") { ... { name } } }", "{ named { ... { name } } }", "{ thing { ... { __typename } } }", "{ ghost { ... { x } } }",
 	"query($b: Boolean!){ named { ... @skip(if: $b) { name } } }",
+	"query($n: String!){ __type(name: $n){ name } }", "query($n: String, $d: Boolean){ __type(name: $n){ fields(includeDeprecated: $d){ name } } }",
+	"# only a comment", ",,,",
 	// introspection (answered by the gateway itself, also in the middle of a batch)
 	"{ __schema { queryType { name } } }", "{ __type(name: \"User\") { name kind } }",
 	// invalid against the schema, or not GraphQL at all
@@ -125,7 +127,9 @@ var c07Queries = []string{
 var c07ValidQueries = []string{"{ ping }", "query Q { ping }", "{ echo(s: \"x\") }", "query($s: String){ echo(s: $s) }", "mutation { inc }", "{ user(id: \"1\") { id name } }",
 	"{ ghost { x } }", "{ ghost { __typename } }", "{ __typename }", "{ named { name } }", "{ thing { __typename ... on User { name } } }",
 	"{ __schema { queryType { name } } }", "{ __type(name: \"User\") { name kind } }",
-	"{ named { ... { name } } }", "{ thing { ... { __typename } } }", "{ ghost { ... { x } } }"}
+	"{ named { ... { name } } }", "{ thing { ... { __typename } } }", "{ ghost { ... { x } } }",
+	// introspection arguments through variables (sent with every kind of value, or none: the gateway does not check variable values)
+	"query($n: String!){ __type(name: $n){ name } }", "query($n: String, $d: Boolean){ __type(name: $n){ fields(includeDeprecated: $d){ name } } }"}
 
 var c07ContentTypes = []string{"application/json", "text/plain", "", "application/graphql", "application/json; charset=utf-8",
 	"application/json;charset=utf-8", "text/plain; charset=us-ascii", "APPLICATION/JSON", "application/json ; charset=utf-8",
